@@ -7,7 +7,7 @@ check("C13", "fault_enumeration",
       "replay is validated against FragTrace.tla (kernel premises K1/K2/K4 and all Frag invariants on every step).",
       "ENOBUFS is injected at the hook in front of sendmsg/send, not provoked in the kernel; two send-buffer sizes "
       "(4096 via the override hook, and the system default); bounds: 10 attempts, shapes as listed in the property.",
-      "TLC model checking of Frag.tla + replay of every TLC behaviour with fault injection + TLC trace validation",
+      "TLC model checking of Frag.tla (ENOBUFS patterns + one non-retried fault injected as EINTR) + replay of every TLC behaviour with fault injection + TLC trace validation",
       "DESIGN.md 3.2, 6 (C13)")
 check("C01", "model_checking",
       "Frag.tla is model-checked by TLC with the fragment arithmetic the running code reports, for every length "
@@ -51,7 +51,8 @@ check("C04", "model_checking",
       "receivers (typed, bytes) and regions at positions 1..4 of small and multi-packet messages, transfer chains across "
       "threads and processes with messages pending before/between/after hops. Identity is checked by tagged traffic: "
       "the model says which tag must come out of which receiver in which order, and the epilogue sends one probe through "
-      "every remaining sender handle and drains every receiver.",
+      "every remaining sender handle and drains every receiver. Every second embedded receiver travels through a shared "
+      "pointer so that the program keeps the handle it was sent from: after the send that handle must be dead.",
       "At most 4 slots per generated message (counts up to 300 are covered at the platform layer by C15); acyclic families.",
       "TLC exhaustive + simulation of Channels.tla, behaviours replayed through the API with per-step comparison",
       "DESIGN.md 3.5, 6 (C04)")
@@ -132,7 +133,9 @@ check("C10", "model_checking",
       "0..20 ms and must not say 'empty' before floor(d) ms; a try_recv observed asleep in the kernel is a violation. "
       "Second stage: every Channels.tla behaviour (<=3-4 operations, plus random walks) that contains a try_recv or "
       "try_recv_timeout is replayed sequentially and each result compared - this stage does not depend on which system "
-      "calls the transport makes.",
+      "calls the transport makes. A timed receive asleep in recvmsg on the channel's socket (a wait without timeout) is a "
+      "violation; waits that expire get 3/0.3/20/0/1/2 ms (and 1250/2100 ms in one plan) and are measured from the release "
+      "of the poll gate.",
       "Timing uses the receiving thread's own monotonic clock only; durations up to 8 s; the mutant RestoreBlocking=FALSE "
       "violates BlockingRestored in the model.",
       "TLC exhaustive model checking of Transport.tla + gated replay with timing floors + replay of Channels.tla behaviours at call level",
@@ -143,7 +146,8 @@ check("C12", "fault_enumeration",
       "DiscOnlyWhenDone + AcceptedDelivered + Terminates. Schedules containing the kill are replayed: the victim is a "
       "spawned process held at its hooks and SIGKILLed exactly there; the receiver must see every completed message "
       "intact, the interrupted one intact or as a non-disconnect error, 'disconnected' only without survivors, and must "
-      "not wait forever.",
+      "not wait forever. Plans in which the crashing sender's messages carry a clone of its own handle (attachments of a "
+      "torn message must be released); errno is poisoned with EINTR before every real receive/send/poll.",
       "Kill points are the hook sites (before each socketpair/sendmsg/send/close of the sending path); observers here are "
       "recv and try_recv (select/router observers: C06/C07).",
       "TLC exhaustive model checking with crash action + gated replay killing a real process at each chosen boundary",
@@ -155,7 +159,9 @@ check("C06", "model_checking",
       "anywhere: EachOnceInOrder, ClosedOnlyWhenDisconnected, UniqueIds, the no-lost-wake-up invariant ETInv and the "
       "liveness Completes. TLC random walks are executed with the sender threads and the selecting thread held at their "
       "system-call hooks (EINTR by a real signal into epoll_wait); per member the events must be exactly its messages in "
-      "order then one closed event, ids unique, and select must not stay asleep while the model has an event pending.",
+      "order then one closed event, ids unique, and select must not stay asleep while the model has an event pending. "
+      "Plans: 200 messages queued before the set looks, 11 members ready in one epoll_wait (events capacity 10), members "
+      "created after others have left the set (descriptor numbers reused), sender killed mid-message.",
       "Premise K10; mutants DrainOne and LevelBlindAdd violate ETInv in the model; cross-member order inside one batch "
       "follows the kernel and only matters for 'matched' accounting; macOS/Windows/in-process sets unbound here.",
       "TLC exhaustive model checking of ReceiverSet.tla + gated replay of TLC-generated interleavings",
@@ -178,8 +184,10 @@ check("C17", "model_checking",
       "PanicOnWakeClosed=TRUE (the code as found) violate them. Free-running scenarios stopped by shutdown or by dropping "
       "the proxy are validated against RouterTrace.tla: a handler entry after shutdown's return event, a callback still "
       "alive at that event, a route offered after shutdown that is invoked, or a recorded panic reject the trace; the "
-      "harness additionally checks that crossbeam receivers are disconnected immediately after shutdown() returns and that "
-      "no thread hangs.",
+      "harness additionally checks that crossbeam receivers are disconnected immediately after shutdown() returns, that "
+      "no thread hangs, that 3 s after a proxy drop every callback is gone and every downstream receiver disconnected, and "
+      "that a stopped router has given its descriptors back. Scenario families: stalls at hook points inside add_route/"
+      "shutdown, callbacks slow to destroy, 11-13 routes ready in one batch, consumers that drop their crossbeam receiver.",
       "Free-running schedules; up to 6 routes and 3 proxy threads per scenario.",
       "TLC exhaustive model checking of Router.tla + TLC trace validation of recorded executions (RouterTrace.tla)",
       "DESIGN.md 3.7, 6 (C17)")
@@ -203,7 +211,9 @@ check("C08", "model_checking",
       "region. Each behaviour is replayed with the client as a thread and as a spawned process (its exit is a real process "
       "exit); an accept called first is parked until the thread is asleep in accept(2). Compared after every step: results "
       "of connect/send/accept/recv, message order and contents, existence of the socket path and its directory, "
-      "distinctness of all names issued, and the process' descriptor count at the end of the behaviour.",
+      "distinctness of all names issued, and the process' descriptor count at the end of the behaviour. Further modes: the "
+      "behaviours executed in a fork(2)ed child of a process that has used the library before; a process client that sends "
+      "60 multi-packet messages before the server accepts; spawned clients report listening sockets they were born with.",
       "Premise K11; clients are spawned (not forked); 1..3 messages per client in generated behaviours.",
       "TLC exhaustive + simulation of OneShot.tla, behaviours replayed through the API with per-step projection",
       "DESIGN.md 3.8, 6 (C08)")
